@@ -19,12 +19,16 @@ def main():
     ap.add_argument("pid")
     ap.add_argument("--tier", default="quick")
     ap.add_argument("--seed", type=int, default=0)
+    ap.add_argument("--no-run", action="store_true", help="only read the work dirs a previous PV_KEEP_WORK=1 run left behind")
     a = ap.parse_args()
     pid = a.pid.upper()
     env = dict(os.environ, PV_KEEP_WORK="1", PV_JOBS=os.environ.get("PV_JOBS", "4"))
-    p = subprocess.run([os.path.join(ROOT, "check"), pid, "--tier", a.tier, "--seed", str(a.seed)], env=env, capture_output=True, text=True, cwd=ROOT)
-    head = [l for l in p.stdout.splitlines() if l.startswith("[")][:1]
-    print("#", head[0] if head else p.stdout[-300:], file=sys.stderr)
+    if a.no_run:
+        p = argparse.Namespace(returncode=None)
+    else:
+        p = subprocess.run([os.path.join(ROOT, "check"), pid, "--tier", a.tier, "--seed", str(a.seed)], env=env, capture_output=True, text=True, cwd=ROOT)
+        head = [l for l in p.stdout.splitlines() if l.startswith("[")][:1]
+        print("#", head[0] if head else p.stdout[-300:], file=sys.stderr)
     known = {f["mechanism"] for f in json.load(open(os.path.join(ROOT, "known_findings.json")))["findings"] if f["property"] == pid and f["status"] == "open"}
     seen = {}
     for f in glob.glob(os.path.join(ROOT, "evidence", ".work", pid, "run-*", "*.json")):
@@ -43,9 +47,10 @@ def main():
                 pass
     for e in seen.values():
         print(json.dumps(e))
-    subprocess.run(["rm", "-rf", os.path.join(ROOT, "evidence", ".work", pid)])
-    for f in glob.glob(os.path.join(ROOT, "replay", pid + "-*")):
-        os.remove(f)
+    if not a.no_run:
+        subprocess.run(["rm", "-rf", os.path.join(ROOT, "evidence", ".work", pid)])
+        for f in glob.glob(os.path.join(ROOT, "replay", pid + "-*")):
+            os.remove(f)
     print(f"# rc={p.returncode} unmatched_mechs={len(seen)}", file=sys.stderr)
 
 
